@@ -63,19 +63,22 @@ where
             // update high and low values if needed
             if old_val >= self.high {
                 // re-compute high
-                self.high = *self
+                // (the window is empty here when window_len is 1)
+                self.high = self
                     .q_vals
                     .iter()
                     .max_by(|x, y| x.partial_cmp(y).unwrap_or(Ordering::Equal))
-                    .unwrap();
+                    .copied()
+                    .unwrap_or(val);
             }
             if old_val <= self.low {
                 // re-compute low
-                self.low = *self
+                self.low = self
                     .q_vals
                     .iter()
                     .min_by(|x, y| x.partial_cmp(y).unwrap_or(Ordering::Equal))
-                    .unwrap();
+                    .copied()
+                    .unwrap_or(val);
             }
         }
         self.q_vals.push_back(val);
